@@ -46,3 +46,42 @@ Section C01.
     In s (inverse_continuing_5dof hp cons Pose kernel5 pose sentinel prev) -> ok5 pose s.
   Proof. intros pose sentinel prev s. eapply continuing_5dof_sound; eauto. Qed.
 End C01.
+
+(** ** the same statements end to end, for the concrete kernel: entry-point glue (Model/Kin.v) over the finishing glue
+    (Model/Finish.v) over the branch tables GENERATED from inverse_intern / inverse_intern_5_dof, against the GENERATED
+    forward kinematics [fwd] (which C03 proves equal to the reference link chain).  No kernel hypothesis is left: the
+    only assumption is the meaning of nalgebra's pose comparison, as an implication from its boolean verdict. *)
+From VF Require Import Base.Lin Gen.Forward Gen.Inverse Model.Finish Proofs.ForwardP Proofs.FinishP Proofs.SoundP.
+
+Section C01_concrete.
+  Variables (p : Params) (cons : option (@Constraints R)) (thr : R).
+  Variables (compare compare_xyz : Iso -> Iso -> bool) (near near_xyz : Iso -> Iso -> Prop).
+  Hypothesis compare_spec : forall a b, compare a b = true -> near a b.
+  Hypothesis compare_xyz_spec : forall a b, compare_xyz a b = true -> near_xyz a b.
+  Variable shift : Iso -> nat -> Iso.
+  Hypothesis shift0 : forall pose, shift pose 0%nat = pose.
+  Let K := the_kernel p compare (ik_theta_def p).
+  Let K5 := the_kernel5 p compare_xyz (ik_theta5_def p).
+  Let sgl : list R := map IZR [p_sg1 p; p_sg2 p; p_sg3 p; p_sg4 p; p_sg5 p; p_sg6 p].
+  Let offl : list R := [p_off1 p; p_off2 p; p_off3 p; p_off4 p; p_off5 p; p_off6 p].
+
+  (** plain inverse: every answer is FK-close to the pose and every angle lies in [-PI, PI] *)
+  Theorem C01_concrete_inverse : forall dof pose s, dof <> 5%Z ->
+    In s (inverse PI dof cons Iso K K5 pose) -> near pose (fwd p (j6_of s)) /\ Forall (fun x => - PI <= x <= PI) s.
+  Proof. intros dof pose s Hd Hs. eapply inverse_reaches; eauto using ik_theta_def_len. Qed.
+
+  Theorem C01_concrete_continuing : forall dof pose (sentinel : bool) prev s,
+    dof <> 5%Z -> length (if sentinel then centers cons else prev) = 6%nat ->
+    In s (inverse_continuing PI thr sgl offl dof cons Iso K K5 shift (fun pose s => compare pose (fwd p (j6_of s))) pose sentinel prev) ->
+    near pose (fwd p (j6_of s)) \/ (K pose = [] /\ exists d, In d [1; 2; 3]%nat /\ near (shift pose d) (fwd p (j6_of s))).
+  Proof. intros dof pose sentinel prev s Hd Hl Hs. eapply continuing_reaches; eauto using ik_theta_def_len. Qed.
+
+  Theorem C01_concrete_inverse_5dof : forall pose j6 s,
+    In s (inverse_5dof PI cons Iso K5 pose j6) -> near_xyz pose (fwd p (j6_of s)).
+  Proof. intros pose j6 s Hs. eapply inverse_5dof_reaches; eauto using ik_theta5_def_len. Qed.
+
+  Theorem C01_concrete_continuing_5dof : forall pose (sentinel : bool) prev s,
+    length (if sentinel then centers cons else prev) = 6%nat ->
+    In s (inverse_continuing_5dof PI cons Iso K5 pose sentinel prev) -> near_xyz pose (fwd p (j6_of s)).
+  Proof. intros pose sentinel prev s Hl Hs. eapply continuing_5dof_reaches; eauto using ik_theta5_def_len. Qed.
+End C01_concrete.
